@@ -276,7 +276,9 @@ func c04Case(w *core.W, m *gen.Model, l gen.Layout) {
 }
 
 func init() {
-	placements := []gen.Layout{gen.Canonical, {Pad: "", NL: "\n", Ann: "multi", Indent: "\t"}, {Pad: "", NL: "\n", Ann: "multi-broken", Indent: "\t"}}
+	placements := []gen.Layout{gen.Canonical, {Pad: "", NL: "\n", Ann: "multi", Indent: "\t"}, {Pad: "", NL: "\n", Ann: "multi-broken", Indent: "\t"},
+		// type names inside rule values written with a JSON escape: the AST reports the decoded names
+		{Pad: "", NL: "\n", Ann: "inline", Indent: "\t", EscValues: true}}
 	Register(&Prop{
 		ID:        "C04",
 		Technique: "bounded exhaustive enumeration of schema models printed to text; the AST is compared node by node and rule by rule with the tree derived from the model that was printed",
